@@ -1,6 +1,7 @@
 import ALock.Lemmas.Mutex
 import ALock.Lemmas.AtomicMutex
 import ALock.Lemmas.AtomTrace
+import ALock.Lemmas.Accept
 
 /-!
 # C01 — Mutex: at most one holder (and release happens-before the next acquire)
@@ -165,3 +166,38 @@ theorem C01_try_lock_atoms (c : Core) :
   split <;> simp_all
 
 end ALock
+
+namespace ALock.Accept.Mutex
+open ALock.Atomic.Mutex
+
+/-- **C01 (executions of the real crate with injected preemptions).** A trace of atomic operations
+recorded from the crate — one call preempted before any of its atomic operations by complete calls
+of other agents — that the acceptor accepts is a run of the atomic-granularity model; so at its end
+(and, the acceptor being applied event by event, after every prefix) at most one agent holds the
+mutex and the word is `holders + 2 · starved`.  The check replays every recorded trace; a
+rejected trace is an execution the model does not have. -/
+theorem C01_accepted (n : Nat) (tr : List TEv) (st' : St)
+    (h : acceptAll (init n) tr = .ok st') :
+    holders st'.sys ≤ 1 ∧ st'.sys.st = holders st'.sys + 2 * starvedN st'.sys := by
+  obtain ⟨l, e⟩ := accepted_reachable h
+  rw [e]
+  exact C01_interleaved ords l
+
+/-- non-vacuity: agent 0's `try_lock` is preempted before its CAS by agent 1's `try_lock`, which
+wins; the trace is accepted -/
+example :
+    (acceptAll (init 2)
+      [.beg 0 "tryLock", .beg 1 "tryLock",
+       .atom 1 { op := .cas, a := 0, b := 1, ord := "", ret := .ok 0 }, .ret 1 "some",
+       .atom 0 { op := .cas, a := 0, b := 1, ord := "", ret := .err 1 }, .ret 0 "none"]).toBool = true := by
+  decide
+
+/-- … and a trace in which both CASes succeed is rejected -/
+example :
+    (acceptAll (init 2)
+      [.beg 0 "tryLock", .beg 1 "tryLock",
+       .atom 1 { op := .cas, a := 0, b := 1, ord := "", ret := .ok 0 }, .ret 1 "some",
+       .atom 0 { op := .cas, a := 0, b := 1, ord := "", ret := .ok 0 }, .ret 0 "some"]).toBool = false := by
+  decide
+
+end ALock.Accept.Mutex
